@@ -1,0 +1,43 @@
+//go:build verif && (verif_all || verif_c20)
+// +build verif
+// +build verif_all verif_c20
+
+package gocql
+
+// Verification hooks (build tag `verif`) for C20, fourth file (the dial itself, for every dialer configuration:
+// ConnConfig.HostDialer as connConfig built it — the caller's HostDialer, or the default host dialer around the
+// caller's Dialer / a net.Dialer and the TLS configuration derived from SslOpts). Add-only.
+
+import (
+	"context"
+	"crypto/tls"
+	"net"
+)
+
+// DialHost asks the session's host dialer (Session.connCfg.HostDialer, exactly what Session.dial calls) for ONE
+// connection to a host (hostname may be empty; ip may be nil = a host without a valid connect address).
+// Nothing is started on the connection; the caller closes it.
+func (v *VerifSess) DialHost(ctx context.Context, hostname string, ip net.IP, port int) (*DialedHost, error) {
+	host := &HostInfo{hostname: hostname, connectAddress: ip, port: port}
+	return v.s.connCfg.HostDialer.DialHost(ctx, host)
+}
+
+// SharedTLS returns the *tls.Config the session's default host dialer holds and hands to WrapTLS for every dial
+// (nil: no SslOpts, or the caller's own HostDialer is in use).
+func (v *VerifSess) SharedTLS() *tls.Config {
+	if hd, ok := v.s.connCfg.HostDialer.(*defaultHostDialer); ok {
+		return hd.tlsConfig
+	}
+	return nil
+}
+
+// UsesDefaultHostDialer reports whether connConfig installed gocql's own host dialer, and whether that one dials
+// through the caller's Dialer (ClusterConfig.Dialer) rather than a net.Dialer of its own.
+func (v *VerifSess) UsesDefaultHostDialer() (dflt bool, callerDialer bool) {
+	hd, ok := v.s.connCfg.HostDialer.(*defaultHostDialer)
+	if !ok {
+		return false, false
+	}
+	_, own := hd.dialer.(*net.Dialer)
+	return true, !own
+}
